@@ -23,34 +23,31 @@ for sd in seeds:
     meta = json.load(open(f"{d}/meta.json"))
     prop = meta["property"]
     patch = f"{d}/patch.diff"
-    base = "HEAD"
-    if sh(f"git -C /repo apply --check {patch}").returncode != 0:
-        base = "d7afc3f"
-        for cand in [meta.get("base"), "0531582", "03e99e9"]:
-            if not cand: continue
-            t = tempfile.mkdtemp(prefix="seedbase-"); os.rmdir(t)
-            sh(f"git -C /repo worktree add -q --detach {t} {cand}")
-            ok = sh(f"git apply --check {patch}", cwd=t).returncode == 0
-            sh(f"git -C /repo worktree remove --force {t}"); shutil.rmtree(t, ignore_errors=True)
-            if ok:
-                base = cand; break
-    wt = tempfile.mkdtemp(prefix="seedeval-"); os.rmdir(wt)
-    try:
-        sh(f"git -C /repo worktree add -q --detach {wt} {base}")
-        b, bu = keys(prop, wt)
-        a = sh(f"git apply {patch}", cwd=wt)
-        if a.returncode != 0:
-            rows.append((sd, prop, base, "patch does not apply", [])); continue
-        p_, pu = keys(prop, wt)
-        if b is None or p_ is None:
-            rows.append((sd, prop, base, "checker failed: %s %s" % (bu, pu), [])); continue
-        new = sorted(p_ - b)
-        status = "DETECTED" if new else "missed"
-        if pu and not bu: status += " (UNDECIDED on patched tree: %s)" % pu[:200]
-        rows.append((sd, prop, base, status, new))
-        json.dump({"property": prop, "base": base, "status": status, "new_violation_keys": new}, open(f"{d}/detection.json", "w"), indent=1)
-    finally:
-        sh(f"git -C /repo worktree remove --force {wt}"); shutil.rmtree(wt, ignore_errors=True)
+    cands = ["HEAD"] + [c for c in [meta.get("base"), "0531582", "03e99e9", "d7afc3f"] if c]
+    done = False
+    for base in cands:
+        wt = tempfile.mkdtemp(prefix="seedeval-"); os.rmdir(wt)
+        try:
+            sh(f"git -C /repo worktree add -q --detach {wt} {base}")
+            if sh(f"git apply --check {patch}", cwd=wt).returncode != 0:
+                continue
+            b, bu = keys(prop, wt)
+            sh(f"git apply {patch}", cwd=wt)
+            p_, pu = keys(prop, wt)
+            if pu and "type-check errors" in pu and base != cands[-1]:
+                continue  # applies textually but no longer compiles on this base
+            if b is None or p_ is None:
+                rows.append((sd, prop, base, "checker failed: %s %s" % (bu, pu), [])); done = True; break
+            new = sorted(p_ - b)
+            status = "DETECTED" if new else "missed"
+            if pu and not bu: status += " (UNDECIDED on patched tree: %s)" % pu[:200]
+            rows.append((sd, prop, base, status, new))
+            json.dump({"property": prop, "base": base, "status": status, "new_violation_keys": new}, open(f"{d}/detection.json", "w"), indent=1)
+            done = True; break
+        finally:
+            sh(f"git -C /repo worktree remove --force {wt}"); shutil.rmtree(wt, ignore_errors=True)
+    if not done:
+        rows.append((sd, prop, "-", "patch does not apply", []))
 for sd, prop, base, status, new in rows:
     print(f"{sd:8} {prop} base={base:8} {status}")
     for k in new[:4]: print("           +", k[:200])
